@@ -126,6 +126,9 @@ def r2(ctx):
         return None
 
     D = f"numpy.array({pd})"
+    # the degrees of freedom in force: the argument when fitting, the recorded value on replay (dict.setdefault gives exactly that)
+    DD_FIT = (pf, f"{pst}.setdefault('ddof', {pf})")
+    DD_REPLAY = (f"{pst}['ddof']", f"{pst}.setdefault('ddof', {pf})", f"{pst}.get('ddof')")
     fit = under(ddof=False, cin=False, cb=True, c=True, cnone=False, sin=False, sb=True, s=True, snone=False)
     replay = under(ddof=True, cin=True, cnone=False, sin=True, snone=False)
     checks = [
@@ -138,7 +141,7 @@ def r2(ctx):
          and sym.pm(f"{D} / {pst}['scale']", under(ddof=True, cin=True, cnone=True, sin=True, snone=False)[0][1]) is not None,
          f"on replay the result must be ({D} - {pst}['center']) / {pst}['scale'] (no centring when the recorded centre is None)"),
         ("the scale is the root of the sum of squares over n − ddof",
-         len(fit) == 1 and effect(fit, f"{pst}['scale'] = numpy.sqrt(numpy.sum(ANY_c ** 2, axis=0) / (ANY_c.shape[0] - {pf}))") is not None,
+         len(fit) == 1 and (effect(fit, f"{pst}['scale'] = numpy.sqrt(numpy.sum(ANY_c ** 2, axis=0) / (ANY_c.shape[0] - ANY_dd))") or {}).get("ANY_dd") in DD_FIT,
          f"when fitting, {pst}['scale'] must be numpy.sqrt(numpy.sum(centred ** 2, axis=0) / (centred.shape[0] - {pf}))"),
         ("the recorded scale divides",
          len(replay) == 1 and isinstance(replay[0][1], ast.BinOp) and isinstance(replay[0][1].op, ast.Div) and norm(replay[0][1].right) == f"{pst}['scale']"
@@ -146,14 +149,14 @@ def r2(ctx):
          and sym.pm(f"{D} - {pst}['center']", under(ddof=True, cin=True, cnone=False, sin=True, snone=True)[0][1]) is not None,
          "on replay the centred data must be divided by the recorded scale (and left alone when it is None)"),
         ("the recorded ddof is reused",
-         effect(under(ddof=True, cin=True, cnone=False, sin=False, sb=True, s=True, snone=False),
-                f"{pst}['scale'] = numpy.sqrt(numpy.sum(ANY_c ** 2, axis=0) / (ANY_c.shape[0] - {pst}['ddof']))") is not None,
+         (effect(under(ddof=True, cin=True, cnone=False, sin=False, sb=True, s=True, snone=False),
+                 f"{pst}['scale'] = numpy.sqrt(numpy.sum(ANY_c ** 2, axis=0) / (ANY_c.shape[0] - ANY_dd))") or {}).get("ANY_dd") in DD_REPLAY,
          f"when {pst} already records ddof, the scale must be estimated with {pst}['ddof'], not with the argument"),
     ]
     for what, ok, msg in checks:
         ctx.look()
         ctx.check(bool(ok), "C13.R2", f"scale: {what}", sc.where, ctx.construct(sc, text=what), msg)
-    b = effect(fit, f"{pst}['scale'] = numpy.sqrt(numpy.sum(ANY_c ** 2, axis=0) / (ANY_c.shape[0] - {pf}))")
+    b = effect(fit, f"{pst}['scale'] = numpy.sqrt(numpy.sum(ANY_c ** 2, axis=0) / (ANY_c.shape[0] - ANY_dd))")
     ctx.check(b is not None and b["ANY_c"] == f"{D} - {pst}['center']", "C13.R2", "scale: the data is centred before the scale is estimated", sc.where,
               ctx.construct(sc, text="centre before scale"),
               f"the standard deviation must be computed from the centred data; it is computed from `{(b or {}).get('ANY_c')}`")
